@@ -12,7 +12,9 @@ import (
 	"encoding/json"
 	"fmt"
 	"os"
+	"reflect"
 	"strconv"
+	"strings"
 	"time"
 )
 
@@ -306,4 +308,156 @@ func Text(name string) string {
 		}
 	}
 	return string(b)
+}
+
+// XMLShape: the static XML mapping of v's type as encoding/xml applies it
+// when marshalling (names with namespaces, child order, occurrence). The
+// symbolic executor computes the same string from go/types; see there for
+// the grammar.
+func XMLShape(v interface{}) string {
+	t := reflect.TypeOf(v)
+	if t == nil {
+		return ""
+	}
+	for t.Kind() == reflect.Ptr {
+		t = t.Elem()
+	}
+	if t.Kind() != reflect.Struct {
+		return "!not-a-struct"
+	}
+	space, local := xmlNameTag(t)
+	if local == "" {
+		return "!no-XMLName"
+	}
+	var lines []string
+	xmlStructShape(t, "{"+space+"}"+local, space, []reflect.Type{t}, &lines)
+	return strings.Join(lines, "\n")
+}
+
+func xmlNameTag(t reflect.Type) (string, string) {
+	f, ok := t.FieldByName("XMLName")
+	if !ok {
+		return "", ""
+	}
+	name := strings.Split(f.Tag.Get("xml"), ",")[0]
+	if k := strings.LastIndex(name, " "); k >= 0 {
+		return name[:k], name[k+1:]
+	}
+	return "", name
+}
+
+func xmlHasMethod(t reflect.Type, names ...string) bool {
+	for _, tt := range []reflect.Type{t, reflect.PtrTo(t)} {
+		for _, n := range names {
+			if _, ok := tt.MethodByName(n); ok {
+				return true
+			}
+		}
+	}
+	return false
+}
+
+func xmlStructShape(t reflect.Type, path string, ownSpace string, stack []reflect.Type, lines *[]string) {
+	var items []string
+	type sub struct {
+		t     reflect.Type
+		path  string
+		space string
+	}
+	var subs []sub
+	for i := 0; i < t.NumField(); i++ {
+		f := t.Field(i)
+		if f.Name == "XMLName" || f.PkgPath != "" {
+			continue
+		}
+		tag := f.Tag.Get("xml")
+		if tag == "-" {
+			continue
+		}
+		parts := strings.Split(tag, ",")
+		name := parts[0]
+		flags := map[string]bool{}
+		for _, p := range parts[1:] {
+			flags[p] = true
+		}
+		space := ""
+		if k := strings.LastIndex(name, " "); k >= 0 {
+			space, name = name[:k], name[k+1:]
+		}
+		switch {
+		case flags["attr"]:
+			if name == "" {
+				name = f.Name
+			}
+			it := "@{" + space + "}" + name
+			if flags["omitempty"] {
+				it += "?"
+			}
+			items = append(items, it)
+			continue
+		case flags["chardata"], flags["cdata"]:
+			items = append(items, "#text")
+			continue
+		case flags["innerxml"]:
+			items = append(items, "#innerxml")
+			continue
+		case flags["comment"]:
+			items = append(items, "#comment")
+			continue
+		}
+		ft := f.Type
+		occ := ""
+		if ft.Kind() == reflect.Ptr {
+			occ = "?"
+			for ft.Kind() == reflect.Ptr {
+				ft = ft.Elem()
+			}
+		}
+		if ft.Kind() == reflect.Slice && ft.Elem().Kind() != reflect.Uint8 {
+			occ = "*"
+			ft = ft.Elem()
+			for ft.Kind() == reflect.Ptr {
+				ft = ft.Elem()
+			}
+		}
+		if occ == "" && flags["omitempty"] {
+			occ = "?"
+		}
+		if flags["any"] {
+			items = append(items, "#any"+occ)
+			continue
+		}
+		leaf := xmlHasMethod(ft, "MarshalXML", "MarshalText")
+		isStruct := ft.Kind() == reflect.Struct
+		if isStruct && !leaf {
+			if s, l := xmlNameTag(ft); l != "" {
+				space, name = s, l
+			}
+		}
+		if name == "" {
+			name = f.Name
+		}
+		if space == "" {
+			space = ownSpace
+		}
+		it := "{" + space + "}" + name + occ
+		if isStruct && !leaf && ft.NumField() > 0 {
+			rec := false
+			for _, s := range stack {
+				if s == ft {
+					rec = true
+				}
+			}
+			if rec {
+				it += "^"
+			} else {
+				subs = append(subs, sub{ft, path + "/{" + space + "}" + name, space})
+			}
+		}
+		items = append(items, it)
+	}
+	*lines = append(*lines, path+" := "+strings.Join(items, " "))
+	for _, s := range subs {
+		xmlStructShape(s.t, s.path, s.space, append(append([]reflect.Type{}, stack...), s.t), lines)
+	}
 }
